@@ -59,7 +59,9 @@ def run(chk):
     import ast as _ast
     uses_pi = any(isinstance(n, _ast.Attribute) and n.attr == "pi" for n in _ast.walk(r.fi.node))
     chk.ob("R-ARIAS-CONST", "eqsig/im.py:_raw_calc_arias_intensity", "constant pi/(2*9.81)", ok and uses_pi,
-           derived="literals %s, uses pi: %s" % (sorted(set(cs)), uses_pi), loc=r.fi.loc())
+           derived="literals %s, uses pi: %s" % (sorted(set(cs)), uses_pi), loc=r.fi.loc(),
+           # neither pi nor a gravity-like literal in the function: the constant lives elsewhere (a table, a module constant): not located
+           inconclusive=(not uses_pi and not any(isinstance(c_, float) and 9 < c_ < 10.5 for c_ in cs)))
     # standardised CAV
     r = analyse(chk, "eqsig.im.calc_cav_dp", sig_arg("asig"))
     c = "eqsig/im.py:calc_cav_dp"
